@@ -171,6 +171,11 @@ def isNilLike : Val → Bool
 def evalBinop (op : String) (a b : Val) : Option Val :=
   match op with
   | "=" | "≠" =>
+    -- HeapLang/GooseLang: equality is defined when one side is an unboxed literal (compare-safe) and is
+    -- then plain structural equality, so values of different shapes or widths are simply different
+    let unboxed : Val → Bool
+      | .u64 _ | .u32 _ | .u8 _ | .bool _ | .unit | .str _ | .null | .loc _ _ => true
+      | _ => false
     let eq :=
       match a, b with
       | .slice _ _ _ _, .sliceNil | .sliceNil, .slice _ _ _ _ => some false
@@ -179,8 +184,8 @@ def evalBinop (op : String) (a b : Val) : Option Val :=
       | .clo _ _ _ _, _ | _, .clo _ _ _ _ => none
       | _, _ =>
         match width a, width b with
-        | some (wa, x), some (wb, y) => if wa == wb then some (x == y) else none
-        | some _, none | none, some _ => none
+        | some (wa, x), some (wb, y) => some (wa == wb && x == y)
+        | some _, none | none, some _ => if unboxed a || unboxed b then some false else none
         | none, none => some (Val.beq a b)
     eq.map (fun e => .bool (if op == "=" then e else !e))
   | "+" =>
@@ -189,6 +194,11 @@ def evalBinop (op : String) (a b : Val) : Option Val :=
     | _, _ => match width a, width b with
       | some (wa, x), some (wb, y) => if wa == wb then binopInt op wa x y else none
       | _, _ => none
+  | "≪" | "≫" =>
+    -- "shifts do not require matching bit width": the result has the width of the left operand
+    match width a, width b with
+    | some (wa, x), some (_, y) => binopInt op wa x y
+    | _, _ => none
   | _ =>
     match width a, width b with
     | some (wa, x), some (wb, y) => if wa == wb then binopInt op wa x y else none
